@@ -338,6 +338,10 @@ class World12:
         if n_root_x < 0 or n_root_g < 0:
             raise Violation("union:size", "whole NLP has nx=%d ng=%d, the stages alone already sum to nx=%d ng=%d" % (rec["nx"], rec["ng"], nx_sum, ng_sum))
         root_vars = sum(s.get("rows", 1) * s.get("cols", 1) for s in a.spec.syms if s["kind"] == "variable")
+        # the block layout [parent, stage 1, stage 2, ...] can only be relied on when Opti dropped no variable
+        if any(r.get("nx_created") != r["nx"] for r in alone + [rec]):
+            self.probe("union_incomparable_active_sets")
+            return
         if n_root_x > root_vars:
             # Opti drops unused variables: a stage variable used only through the parent is active in the whole only
             self.probe("union_incomparable_active_sets")
@@ -354,6 +358,10 @@ class World12:
         # values: the whole decision vector is [parent's variables, stage 1 block, stage 2 block, ...]
         pts = [rec["x0"]] + S.probe_points(rec["nx"], self.probe_seed)
         for i, xi in enumerate(pts):
+            gi = np.abs(np.asarray(rec["g"][i], dtype=float))
+            if not np.isfinite(rec["f"][i]) or abs(rec["f"][i]) > S.COND_LIMIT or (gi.size and not (np.nanmax(gi) <= S.COND_LIMIT)):
+                self.probe("union_ill_conditioned_probe_skipped")
+                continue
             off, goff, fsum = n_root_x, n_root_g, 0.0
             for r_s in alone:
                 xs = np.asarray(xi[off:off + r_s["nx"]], dtype=float)
